@@ -360,8 +360,8 @@ def classify(h, rc, timed_out, res):
                 res["covers_sat"],
                 res["covers_total"],
             )
-        if res["covers_total"] == 0:
-            return "inconclusive", "harness has no reachability witness"
+        if res["covers_total"] == 0 and res.get("covers_opt_sat", 0) == 0:
+            return "inconclusive", "harness has no satisfied reachability witness"
         return "pass", ""
     if res["status"] == "FAILED":
         fs = res["failures"]
@@ -408,16 +408,67 @@ def mem_available_gb():
     return 0.0
 
 
+LEDGER = os.path.join(WORK, "mem")
+TOTAL_GB = 62
+
+
+def _ledger_sum():
+    tot = 0
+    for fn in os.listdir(LEDGER):
+        if fn == "lock":
+            continue
+        try:
+            pid, gb = fn.split(".")[0:2]
+            os.kill(int(pid), 0)
+            tot += int(gb)
+        except (ValueError, ProcessLookupError, PermissionError):
+            try:
+                os.unlink(os.path.join(LEDGER, fn))
+            except OSError:
+                pass
+    return tot
+
+
+def reserve_memory(need_gb, tag, max_wait=6 * 3600):
+    """Admission control shared by all run.py processes (the machine has no swap): a solver
+    instance starts only when the sum of the reservations of the running instances plus its
+    own stays below the machine's memory, and enough memory is available right now."""
+    import fcntl
+
+    os.makedirs(LEDGER, exist_ok=True)
+    t0 = time.time()
+    while True:
+        with open(os.path.join(LEDGER, "lock"), "w") as lk:
+            fcntl.flock(lk, fcntl.LOCK_EX)
+            if (_ledger_sum() + need_gb <= TOTAL_GB - 8 and mem_available_gb() >= need_gb + 4) or time.time() - t0 > max_wait:
+                path = os.path.join(LEDGER, f"{os.getpid()}.{int(need_gb)}.{tag}")
+                open(path, "w").close()
+                return path
+        time.sleep(4 + (os.getpid() % 5))
+
+
+def release_memory(path):
+    try:
+        os.unlink(path)
+    except OSError:
+        pass
+
+
 def wait_for_memory(need_gb, max_wait=7200):
-    """Admission control: the machine has no swap; do not start a solver when fewer than
-    `need_gb` + 6 GB are available (other instances are still growing)."""
     t0 = time.time()
     while mem_available_gb() < need_gb + 6 and time.time() - t0 < max_wait:
         time.sleep(5 + (os.getpid() % 7))
 
 
 def run_harness(h, slot):
-    wait_for_memory(h.get("mem_gb", 4))
+    ticket = reserve_memory(h.get("mem_gb", 4), h["name"])
+    try:
+        return _run_harness(h, slot)
+    finally:
+        release_memory(ticket)
+
+
+def _run_harness(h, slot):
     tdir = os.path.join(WORK, f"t{slot}")
     logpath = os.path.join(WORK, "logs", h["name"] + ".log")
     extra = None
@@ -458,8 +509,11 @@ def replay(h, slot):
     """Re-run the failing harness with concrete playback, then natively."""
     tdir = os.path.join(WORK, f"t{slot}")
     logpath = os.path.join(WORK, "logs", h["name"] + ".playback.log")
-    wait_for_memory(2 * h.get("mem_gb", 4) + 4)
-    rc, to, _ = run_cmd(kani_cmd(h, tdir, playback=True, cbmc_args=h.get("_cbmc_args")), KANI, h["timeout"] * 2, logpath, limit="big")
+    ticket = reserve_memory(min(2 * h.get("mem_gb", 4) + 4, 40), h["name"] + ".playback")
+    try:
+        rc, to, _ = run_cmd(kani_cmd(h, tdir, playback=True, cbmc_args=h.get("_cbmc_args")), KANI, h["timeout"] * 2, logpath, limit="big")
+    finally:
+        release_memory(ticket)
     res = parse_log(logpath)
     tests = [
         t
